@@ -67,6 +67,13 @@ func (i *Interp) registerVX() {
 		}
 		return int64(v)
 	})
+	V("ParamOr", func(fr *frame, a []Value) Value {
+		n := vstr(a[0])
+		if v, ok := i.ex.params[n]; ok {
+			return int64(v)
+		}
+		return a[1]
+	})
 	V("CatchPanic", func(fr *frame, a []Value) Value {
 		return i.catchPanic(fr, a[0])
 	})
